@@ -257,7 +257,21 @@ impl C18 {
             Ok(Some((i, g, e))) => ctx.violation("fenwick:sum<u64>:prefix-wrong", Obj::new().s("case", "70000 slots, 3000 updates").s("what", &format!("get({}) = {} expected {}", i, g, e)).done()),
             Ok(None) => {}
         }
-        ctx.count("containers_with_more_than_65536_elements", 3);
+        // index arithmetic beyond 2^31: a max tree over a zero-sized payload costs no memory; every update and query must
+        // terminate within log2(len) steps and give the (only possible) value
+        let r = guard(|| {
+            let len = (1usize << 31) + 11;
+            let mut zt: FenwickTree<(), MaxOp> = FenwickTree::new(len);
+            for &i in &[0usize, 5, (1 << 31) - 1, 1 << 31, len - 1] {
+                zt.set(i, ());
+            }
+            [0usize, (1 << 31) - 1, 1 << 31, len - 1].iter().map(|&i| zt.get(i)).count()
+        });
+        ctx.eval(9);
+        if let Err(p) = r {
+            ctx.violation(&format!("fenwick:panic:{}", panic_site(&p)), Obj::new().s("case", "max tree over () with 2^31+11 slots").s("what", &p).done());
+        }
+        ctx.count("containers_with_more_than_65536_elements", 4);
     }
 
     fn smallints_history(&self, ctx: &mut Ctx, rng: &mut Rng) {
